@@ -32,6 +32,8 @@ mod recover;
 mod verif_hooks;
 #[cfg(blue_verif)]
 pub use verif_hooks::{VerifCompaction, verif_set_point_hook};
+#[cfg(blue_verif)]
+pub use verif_hooks::{VerifParked, verif_select};
 
 use recover::recover;
 
@@ -1144,6 +1146,8 @@ pub struct LsmTree {
     compact: Condvar,
     references: ReferenceCounter<Setsum>,
     sst_cache: Arc<LeastRecentlyUsedCache<Setsum, CachedSst>>,
+    #[cfg(blue_verif)]
+    verif_proto: verif_hooks::VerifProto,
 }
 
 impl LsmTree {
@@ -1200,6 +1204,8 @@ impl LsmTree {
             compact,
             references,
             sst_cache,
+            #[cfg(blue_verif)]
+            verif_proto: Default::default(),
         };
         db.cleanup_orphans()?;
         Ok(db)
@@ -1306,17 +1312,26 @@ impl LsmTree {
                 'inner: loop {
                     let version = self.take_snapshot();
                     let compaction = version.version.next_compaction();
+                    #[cfg(blue_verif)]
+                    self.verif_proto.selected(compaction.as_ref());
                     if let Some(compaction) = compaction {
                         break 'inner compaction;
                     } else {
                         COMPACTION_THREAD_NO_COMPACTION.click();
+                        #[cfg(blue_verif)]
+                        let verif_generation = self.verif_proto.park(verif_hooks::VERIF_COMPACT);
                         mutex = self.compact.wait(mutex).unwrap();
+                        #[cfg(blue_verif)]
+                        self.verif_proto
+                            .unpark(verif_hooks::VERIF_COMPACT, verif_generation);
                     }
                 }
             };
             if let Err(err) = self.perform_compaction(compaction.clone()) {
                 let _mutex = self.compaction.lock().unwrap();
                 let version = self.take_snapshot();
+                #[cfg(blue_verif)]
+                self.verif_proto.released(&compaction);
                 let _ = version.version.release_compaction(compaction);
                 return Err(err);
             }
@@ -1536,7 +1551,12 @@ impl LsmTree {
         let mut version = self.take_snapshot();
         while version.version.should_stall_ingest() {
             INGEST_STALL.click();
+            #[cfg(blue_verif)]
+            let verif_generation = self.verif_proto.park(verif_hooks::VERIF_STALL);
             mutex = self.stall.wait(mutex).unwrap();
+            #[cfg(blue_verif)]
+            self.verif_proto
+                .unpark(verif_hooks::VERIF_STALL, verif_generation);
             let mut version2 = self.take_snapshot();
             std::mem::swap(&mut version, &mut version2);
             drop(version2);
@@ -1551,11 +1571,17 @@ impl LsmTree {
         mani_edit.info('D', &setsum.hexdigest())?;
         // TODO(rescrv):  Do not hold tree lock across manifest edit.
         self.mani.write().unwrap().apply(mani_edit)?;
+        #[cfg(blue_verif)]
+        let verif_new = new.clone();
         let new_version = Arc::new(version.version.ingest(new)?);
         // TODO(rescrv): don't hold the lock for computing setsum.
         let tree_setsum = new_version.compute_setsum();
         assert_eq!(tree_setsum, output_setsum);
         self.install_version(new_version);
+        #[cfg(blue_verif)]
+        self.verif_proto.ingested(&verif_new);
+        #[cfg(blue_verif)]
+        self.verif_proto.notified(verif_hooks::VERIF_COMPACT);
         self.compact.notify_all();
         Ok(())
     }
@@ -1576,11 +1602,17 @@ impl LsmTree {
         mani_edit.info('O', &output_setsum.hexdigest())?;
         mani_edit.info('D', &discard_setsum.hexdigest())?;
         self.mani.write().unwrap().apply(mani_edit)?;
+        #[cfg(blue_verif)]
+        let verif_applied = verif_hooks::verif_describe_apply(&compaction, &outputs);
         let new_version = Arc::new(version.version.apply_compaction(compaction, outputs)?);
         // TODO(rescrv): don't hold the lock for computing setsum.
         let tree_setsum = new_version.compute_setsum();
         assert_eq!(tree_setsum, output_setsum);
         self.install_version(new_version);
+        #[cfg(blue_verif)]
+        self.verif_proto.applied(verif_applied);
+        #[cfg(blue_verif)]
+        self.verif_proto.notified(verif_hooks::VERIF_STALL);
         self.stall.notify_all();
         Ok(())
     }
@@ -1595,10 +1627,17 @@ impl LsmTree {
         let meta = sst.metadata()?;
         let version = self.take_snapshot();
         let tree_setsum1 = version.version.compute_setsum();
+        #[cfg(blue_verif)]
+        let verif_applied =
+            verif_hooks::verif_describe_apply(&compaction, std::slice::from_ref(&meta));
         let new_version = Arc::new(version.version.apply_compaction(compaction, vec![meta])?);
         let tree_setsum2 = new_version.compute_setsum();
         assert_eq!(tree_setsum1, tree_setsum2);
         self.install_version(new_version);
+        #[cfg(blue_verif)]
+        self.verif_proto.applied(verif_applied);
+        #[cfg(blue_verif)]
+        self.verif_proto.notified(verif_hooks::VERIF_STALL);
         self.stall.notify_all();
         Ok(())
     }
